@@ -5,19 +5,60 @@ import os
 
 HERE = os.path.dirname(os.path.dirname(os.path.abspath(__file__)))
 
+TECH = "Lean 4 theorems (induction / refinement / case analysis, kernel-checked) + model/implementation correspondence (differential) + metamorphic twins as failing-input search"
+NOTE = ("Trusted: Lean kernel + axioms propext/Classical.choice/Quot.sound; the hand-written model is tied to /repo only on sampled "
+        "inputs; float rounding, sqrt/log/exp, numpy samplers (recorded tape), scikit-learn, scipy cdist, joblib, pickle are outside the model.")
+
 CHECKS = {
     "C01": dict(
-        text="Lean 4 proof (full): refinement theorem cf_refines_log — for every policy kind, arm list and finite history "
+        text="Lean 4 proof (full): refinement theorem cf_refines_log - for every policy kind, arm list and finite history "
              "over fit/partial_fit/add_arm/remove_arm the learned record of every current arm is the documented statistic "
              "of exactly that arm's log since the last fit/add (running mean, UCB1 with current N, Softmax shares of the "
              "current means summing to 1, Popularity means normalised to 1, Thompson 1+successes/1+failures). Tied to /repo "
              "by a correspondence check: the executable model and the real MAB are run on the same generated histories and "
              "must agree on predict_expectations, arms, and every sampler request (kind, stream, parameters).",
-        ref="7 (C01)",
-        note="Model = exact rationals; float rounding, sqrt/log/exp and numpy samplers are outside the model (recorded tape). "
-             "The model is tied to the code only on sampled histories.",
-        technique="Lean 4 refinement proof by induction over operation lists + model/implementation correspondence (differential)"),
+        ref="7 (C01)"),
+    "C05": dict(
+        text="Lean 4 proof (partial): partition_exact_cover (for all n>=1, n_jobs!=0, cpu: sizes positive, sum n, starts = prefix sums), "
+             "chunked_map / predict_any_partition (every contiguous partition with a row-local worker gives the row-wise results), "
+             "fit_tasks_commute (per-arm fit tasks in any order give the same model). Real scheduling, processes and pickling cannot "
+             "be exhibited by the model; they are sampled: exhaustive _partition_contexts table vs model, _predict_contexts whole vs "
+             "row-by-row with equal seeds, _fit_arm in all task orders, n_jobs x backend twins.",
+        ref="7 (C05)"),
+    "C06": dict(
+        text="Lean 4 proof (full for exact arithmetic): incremental_eq_batch - from any reachable state, fit on a prefix + partial_fit on "
+             "any chunking leaves the same learned record per arm as one fit on the concatenation, for every policy kind incl. linear "
+             "(A, Xty, inverse, coefficients). Correspondence on chunked histories; batch-vs-chunked twins bit-for-bit (1e-9 linear).",
+        ref="7 (C06)"),
+    "C07": dict(
+        text="Lean 4 proof (full at policy level): fit_discards - fit(D) on any state equals fit(D) on any state with the same configuration "
+             "and arms, in particular a fresh one (fit_after_history_eq_fresh). Neighbourhood-level resets (history, hash tables and planes, "
+             "clusters, trees) are transcribed in the model and tied by correspondence on refit scenarios and refit-vs-fresh twins.",
+        ref="7 (C07)"),
+    "C09": dict(
+        text="Lean 4 proof (full): argmax_first (first key attaining the maximum, any total transitive comparison), predict_eq_argmax "
+             "(predict is that arg-max of the expectations computed from the same state and draws). Correspondence on predict outputs; "
+             "predict vs predict_expectations on deep copies incl. exact ties.",
+        ref="7 (C09)"),
+    "C10": dict(
+        text="Lean 4 proof (full in the model): predictExp_readonly / query_readonly - a query returns the identical bandit state except the "
+             "remembered last Thompson draw (never read). Worker deep copies are values in the model; their privacy in the code is tied by "
+             "correspondence and by queried-vs-unqueried twins with random-stream positions copied across, n_jobs in {1,2}.",
+        ref="7 (C10)"),
+    "C13": dict(
+        text="Lean 4 proof (full modulo distance oracle): ws_pairs_spec, ws_target, ws_untouched, cold_arms_spec - only cold arms change, "
+             "each gets an exact copy of its closest trained arm within the quantile threshold, other arms keep state and status. "
+             "Correspondence on histories with warm_start (cold_arms after every op); twins for idempotence and quantile monotonicity.",
+        ref="7 (C13)"),
+    "C17": dict(
+        text="Lean 4 proof (full for the modelled rejection classes): rejected_noop - for every state, op, argument, oracle, tape: a rejected "
+             "call returns the identical state and random streams. Malformed calls of every class at random positions: model vs "
+             "implementation, and continuation-on-bandit vs continuation-on-copy-taken-before twins.",
+        ref="7 (C17)"),
 }
+for _c in CHECKS.values():
+    _c.setdefault("note", NOTE)
+    _c.setdefault("technique", TECH)
 
 NOT_APPLICABLE = {}
 
